@@ -444,3 +444,262 @@ def check_fee_free(src: str, prop: str = "C09", exact: bool = False, unroll: int
                                     f"block at line {line}: single direct check implies the bound {adm}, reported {ctx.max_fee}", None, None, line,
                                     "max_fee", ctx.max_fee, True, {"admitted": adm}))
     return findings, st
+
+
+# ---------------------------------------------------------------------------------------------
+# FREE-mode converse for address fields (C08) and generic "dangerous value admitted" maps (C02, C03)
+# ---------------------------------------------------------------------------------------------
+
+
+def free_admits(prog: ts.Prog, governed: Sequence[str], danger: Callable[[sx.Z3Dom], Any], unroll: int, st: ProgStats,
+                retsub_any: bool = False) -> Tuple[Dict[int, bool], Dict[int, bool], List[Tuple[Tuple[int, ...], bool]], Any]:
+    """Direct-check reading with the given governed fields.
+
+    -> (pc -> some accepting path through the block admits the dangerous value,
+        pc -> block lies inside a subroutine (transitively) called from several sites,
+        [(block-trace of an accepting path, admits?)], executor)"""
+    admits: Dict[int, bool] = {}
+    inside: Dict[int, bool] = {}
+    paths: List[Tuple[Tuple[int, ...], bool]] = []
+    multi = multi_site_subs(prog)
+
+    def on_accept(dom: sx.Z3Dom, res: ts.PathResult, _s: Any) -> None:
+        st.accepting += 1
+        ok = dom.check(danger(dom)) == "sat"
+        paths.append((tuple(e[0] for e in res.trace), ok))
+        for pc, _a, entries in res.trace:
+            admits[pc] = admits.get(pc, False) or ok
+            if any(e in multi for e in entries):
+                inside[pc] = True
+
+    def on_any(dom: sx.Z3Dom, res: ts.PathResult, _s: Any) -> None:
+        st.paths += 1
+        if res.cut:
+            st.cut += 1
+
+    ex, dom = sx.explore(prog, "FREE", list(governed), unroll, retsub_any=retsub_any, on_accept=on_accept, on_any=on_any)
+    st.absorb(dom)
+    return admits, inside, paths, ex
+
+
+def check_addr_free(src: str, prop: str = "C08", unroll: int = 2, run: Optional[Run] = None) -> Tuple[List[Finding], ProgStats]:
+    """If no accepting direct-check path through a block admits an unnamed address for the field
+    (it is pinned to named addresses / zero on all of them), the block must not say 'any address'."""
+    st = ProgStats()
+    prog = ts.tokenize(src)
+    t0 = time.time()
+    if run is None:
+        run = Run(src, detectors=[])
+    st.tealer_s = time.time() - t0
+    findings: List[Finding] = []
+    fields = [f for f in ts.ADDR_FIELDS if any(f in ins.args for ins in prog.ins)]
+    try:
+        for fname in fields:
+            admits, inside, _paths, _ex = free_admits(prog, [fname], lambda d, fname=fname: d.field(fname, d.gi) == ts.ADDR_ATT, unroll, st)
+            st.nontrivial = True
+            for b in run.function.blocks:
+                line = b.entry_instr.line
+                pcs = [i.idx for i in prog.ins if i.line == line]
+                if not pcs or pcs[0] not in admits:
+                    continue
+                pc = pcs[0]
+                val = getattr(run.ctx(b), cl.ADDR_CTX_ATTR[fname])
+                if not admits[pc] and not inside.get(pc) and val.any_addr:
+                    findings.append(Finding(prop, f"converse:{cl.ADDR_CTX_ATTR[fname]}", src,
+                                            f"block at line {line}: {fname} is pinned to named addresses on every accepting direct-check path through the block but is reported as 'any address'",
+                                            None, None, line, cl.ADDR_CTX_ATTR[fname], {"any": True}, True))
+    except ts.Unsupported as e:
+        st.skipped = f"unsupported opcode {e}"
+        return [], st
+    return findings, st
+
+
+# ---------------------------------------------------------------------------------------------
+# detectors: C01 (EXACT, must report), C03 (FREE, must not report), C02 (excluded blocks)
+# ---------------------------------------------------------------------------------------------
+
+MAX_COST = 272000
+
+
+def _d_te(d: Any, v: int) -> Any:
+    return d.field("TypeEnum", d.gi) == v
+
+
+def _d_oc(d: Any, v: int) -> Any:
+    return z3.And(d.field("TypeEnum", d.gi) == 6, d.field("OnCompletion", d.gi) == v)
+
+
+def _d_addr(d: Any, f: str) -> Any:
+    return d.field(f, d.gi) == ADDR_ATT
+
+
+# detector -> list of (governed fields of the projection, danger formula of that projection)
+DETECTOR_PROJECTIONS: Dict[str, List[Tuple[List[str], Callable[[Any], Any]]]] = {
+    "rekey-to": [(["RekeyTo"], lambda d: _d_addr(d, "RekeyTo"))],
+    "can-close-account": [(["CloseRemainderTo"], lambda d: _d_addr(d, "CloseRemainderTo")), (["TypeEnum", "OnCompletion", "ApplicationID"], lambda d: _d_te(d, 1))],
+    "can-close-asset": [(["AssetCloseTo"], lambda d: _d_addr(d, "AssetCloseTo")), (["TypeEnum", "OnCompletion", "ApplicationID"], lambda d: _d_te(d, 4))],
+    "missing-fee-check": [(["Fee"], lambda d: d.field("Fee", d.gi) > MAX_COST)],
+    "is-updatable": [(["TypeEnum", "OnCompletion", "ApplicationID"], lambda d: _d_oc(d, 4))],
+    "is-deletable": [(["TypeEnum", "OnCompletion", "ApplicationID"], lambda d: _d_oc(d, 5))],
+    "unprotected-updatable": [(["TypeEnum", "OnCompletion", "ApplicationID"], lambda d: _d_oc(d, 4)), (["Sender"], lambda d: _d_addr(d, "Sender"))],
+    "unprotected-deletable": [(["TypeEnum", "OnCompletion", "ApplicationID"], lambda d: _d_oc(d, 5)), (["Sender"], lambda d: _d_addr(d, "Sender"))],
+    "group-size-check": [(["GroupSize"], lambda d: d.gs == MAX_GROUP)],
+}
+
+
+def danger_exact(det: str, d: Any) -> Any:
+    return z3.And(*[f(d) for _, f in DETECTOR_PROJECTIONS[det]])
+
+
+def danger_concrete(det: str, model: Dict[str, Any]) -> bool:
+    gi = str(model["gi"])
+
+    def fld(f: str) -> int:
+        return int(model["fields"].get(f, {}).get(gi, 0))
+
+    te, oc = fld("TypeEnum"), fld("OnCompletion")
+    return {
+        "rekey-to": fld("RekeyTo") == ADDR_ATT,
+        "can-close-account": te == 1 and fld("CloseRemainderTo") == ADDR_ATT,
+        "can-close-asset": te == 4 and fld("AssetCloseTo") == ADDR_ATT,
+        "missing-fee-check": fld("Fee") > MAX_COST,
+        "is-updatable": te == 6 and oc == 4,
+        "is-deletable": te == 6 and oc == 5,
+        "unprotected-updatable": te == 6 and oc == 4 and fld("Sender") == ADDR_ATT,
+        "unprotected-deletable": te == 6 and oc == 5 and fld("Sender") == ADDR_ATT,
+        "group-size-check": model["gs"] == MAX_GROUP,
+    }[det]
+
+
+ADDR_FEE_DETECTORS = ("rekey-to", "can-close-account", "can-close-asset", "missing-fee-check", "unprotected-updatable", "unprotected-deletable")
+
+
+def check_must_report(src: str, prop: str = "C01", unroll: int = 2, run: Optional[Run] = None,
+                      detectors: Optional[Sequence[str]] = None) -> Tuple[List[Finding], ProgStats]:
+    """C01: an approvable execution with the dangerous value exists (EXACT semantics) => the detector reports a path."""
+    st = ProgStats()
+    prog = ts.tokenize(src)
+    dets = list(detectors or DETECTOR_PROJECTIONS)
+    t0 = time.time()
+    if run is None:
+        run = Run(src, detectors=dets)
+    st.tealer_s = time.time() - t0
+    silent = [d for d in dets if not run.paths[d]]
+    witness: Dict[str, Tuple[Dict[str, Any], List[Tuple]]] = {}
+
+    def on_accept(dom: sx.Z3Dom, res: ts.PathResult, _s: Any) -> None:
+        st.accepting += 1
+        for det in silent:
+            if det in witness:
+                continue
+            if det == "group-size-check" and not res.abs_reads:
+                continue
+            dom.push()
+            dom.add(danger_exact(det, dom))
+            if dom.check() == "sat":
+                witness[det] = (dom.extract_model(), list(res.trace))
+            dom.pop()
+
+    def on_any(dom: sx.Z3Dom, res: ts.PathResult, _s: Any) -> None:
+        st.paths += 1
+        if res.cut:
+            st.cut += 1
+
+    try:
+        ex, dom = sx.explore(prog, "EXACT", None, unroll, on_accept=on_accept, on_any=on_any)
+    except ts.Unsupported as e:
+        st.skipped = f"unsupported opcode {e}"
+        return [], st
+    st.absorb(dom)
+    st.nontrivial = st.accepting > 0
+    findings: List[Finding] = []
+    for det, (model, trace) in witness.items():
+        if ex.runtime_cmp_governed and det in ADDR_FEE_DETECTORS:
+            continue  # governed address/fee field compared with a run-time value: outside the claim
+        f = Finding(prop, "must-report:" + det, src,
+                    f"{det}: an execution (gs={model['gs']}, gi={model['gi']}) with the dangerous value is approved along lines {_lines(prog, trace)} but the detector reports no path",
+                    model, _lines(prog, trace), None, det, {"paths": []})
+        rep = sx.replay(prog, model, "EXACT", None, unroll)
+        if rep.accepted and [e[0] for e in rep.trace] == [e[0] for e in trace] and danger_concrete(det, model):
+            if det != "group-size-check" or rep.abs_reads:
+                # re-read tealer's verdict from a fresh run
+                fresh = Run(src, detectors=[det])
+                f.replayed = not fresh.paths[det]
+        findings.append(f)
+    return findings, st
+
+
+class FreeDetectorView:
+    """Direct-check reading of a program for every detector (shared by C02 and C03)."""
+
+    def __init__(self, src: str, unroll: int = 2, detectors: Optional[Sequence[str]] = None):
+        self.prog = ts.tokenize(src)
+        self.st = ProgStats()
+        self.cache: Dict[Tuple[Tuple[str, ...], str, bool], Any] = {}
+        self.unroll = unroll
+        self.dets = list(detectors or DETECTOR_PROJECTIONS)
+        self.abs_paths: Optional[set] = None
+
+    def projection(self, det: str, i: int, retsub_any: bool = False) -> Any:
+        gov, danger = DETECTOR_PROJECTIONS[det][i]
+        key = (tuple(gov), f"{det}#{i}" if det.startswith(("is-", "unprotected")) or "close" in det else det + str(i), retsub_any)
+        if key not in self.cache:
+            self.cache[key] = free_admits(self.prog, gov, danger, self.unroll, self.st, retsub_any)
+        return self.cache[key]
+
+    def dangerous_traces(self, det: str) -> set:
+        """Block traces of accepting direct-check paths on which every projection admits the dangerous value."""
+        sets = []
+        for i in range(len(DETECTOR_PROJECTIONS[det])):
+            _adm, _ins, paths, _ex = self.projection(det, i)
+            sets.append({tr for tr, ok in paths if ok})
+        out = set.intersection(*sets) if sets else set()
+        if det == "group-size-check":
+            out = {tr for tr in out if self._has_abs_read(tr)}
+        return out
+
+    def _has_abs_read(self, trace: Tuple[int, ...]) -> bool:
+        """Some block of the trace reads by absolute index (syntactic, as the property states)."""
+        p = self.prog
+        start = ts.block_start_of(p)
+        blocks = set(trace)
+        for ins in p.ins:
+            if start[ins.idx] not in blocks:
+                continue
+            if ins.op in ("gtxn", "gtxna", "gtxnas"):
+                return True
+            if ins.op in ("gtxns", "gtxnsa", "gtxnsas"):
+                # index operand pushed by the directly preceding constant instruction in the same block
+                j = ins.idx - 1
+                if ins.op == "gtxnsas":
+                    continue
+                if j >= 0 and start[j] == start[ins.idx] and p.ins[j].op in ("int", "pushint", "intc", "intc_0", "intc_1", "intc_2", "intc_3"):
+                    return True
+        return False
+
+
+def check_must_not_report(src: str, prop: str = "C03", unroll: int = 2, run: Optional[Run] = None,
+                          detectors: Optional[Sequence[str]] = None) -> Tuple[List[Finding], ProgStats]:
+    """C03: no accepting direct-check path carries the dangerous value (fields read independently) => no report."""
+    dets = list(detectors or DETECTOR_PROJECTIONS)
+    t0 = time.time()
+    if run is None:
+        run = Run(src, detectors=dets)
+    view = FreeDetectorView(src, unroll, dets)
+    view.st.tealer_s = time.time() - t0
+    findings: List[Finding] = []
+    try:
+        for det in dets:
+            if not run.paths[det]:
+                continue
+            view.st.nontrivial = True
+            if not view.dangerous_traces(det):
+                p0 = run.paths[det][0]
+                findings.append(Finding(prop, "must-not-report:" + det, src,
+                                        f"{det}: every accepting direct-check path excludes the dangerous value, but {len(run.paths[det])} path(s) are reported, e.g. "
+                                        + " -> ".join(str(b.idx) for b in p0), None, [b.entry_instr.line for b in p0], None, det,
+                                        {"paths": [[b.idx for b in p] for p in run.paths[det][:5]]}, True))
+    except ts.Unsupported as e:
+        view.st.skipped = f"unsupported opcode {e}"
+        return [], view.st
+    return findings, view.st
